@@ -253,7 +253,9 @@ func (p *ProcessorOrchestrator) Delete(ctx context.Context, id string) error {
 	r.Append(func() error {
 		restored, err := p.processors.Create(ctx, id, proc.Plugin, proc.Parent, proc.Config, processor.ProvisionTypeAPI, proc.Condition)
 		if err == nil {
-			// bring back the processor that was deleted, not a new one
+			// bring back the processor that was deleted, not a new one (Create
+			// fills in defaults, e.g. the number of workers)
+			restored.Config = proc.Config
 			restored.CreatedAt, restored.UpdatedAt = proc.CreatedAt, proc.UpdatedAt
 		}
 		return err
